@@ -459,9 +459,21 @@ PSNAMES = sorted(BUILDERS)
 _cache = {}
 
 
+def assert_unique_names(pset):
+    """the quantifier: "Primitives are required to have a unique name" (gp.py) — a set in which one name carries two
+    Primitive objects (the same function registered twice with two signatures) is outside; no operator stream may use one"""
+    seen = {}
+    for lst in pset.primitives.values():
+        for q in lst:
+            if seen.setdefault(q.name, q) is not q:
+                raise AssertionError("generator bug: two primitives named %r in one set (outside the quantifier)" % q.name)
+    return pset
+
+
 def get_ps(name):
     if name not in _cache:
         _cache[name] = BUILDERS[name]()
+        assert_unique_names(_cache[name].pset)
     return _cache[name]
 
 
@@ -513,6 +525,7 @@ GS_MISS = ["gsm_lf", "gsm_mul", "gsm_add", "gsm_sub"]
 def get_gs(name):
     if name not in _cache:
         _cache[name] = GS_BUILDERS[name]()
+        assert_unique_names(_cache[name].pset)
     return _cache[name]
 
 
